@@ -1101,10 +1101,11 @@ Qed.
 (* ================================================================ the encrypted wrapper adds no authority
    Everything that decides about a request object sees open_wrapper w: what is inside the JWE, a bare JSON plaintext
    standing for an unsigned object.  Pushing a wrapped object is pushing its content; by value a wrapped object is
-   handled exactly like its content when RequestParam is not among the client-authentication methods or the wrapper
-   says cty "JWT" (RequestParam reads a wrapper without cty differently: it takes `iss` of JSON plaintext as the
-   client, see request_param; the soundness theorems above hold there all the same); a wrapped document behind a
-   request_uri never takes effect. *)
+   handled exactly like its content when RequestParam is not among the client-authentication methods, or the
+   content is JSON claims nobody signed (f092826: RequestParam gives up on them, as it does on an alg "none" JWS), or
+   the content is a JWS and the wrapper says cty "JWT" (RequestParam reads a wrapper without cty around a JWS as raw
+   text and gives up, where it would identify the signer of the bare JWS, see request_param; the soundness theorems
+   above hold there all the same); a wrapped document behind a request_uri never takes effect. *)
 Lemma open_wrapper_idem w : open_wrapper (open_wrapper w) = open_wrapper w.
 Proof. destruct w as [| |h i]; auto. cbn. destruct (j_state h); auto. destruct i; auto. Qed.
 
@@ -1155,8 +1156,45 @@ Qed.
 
 Lemma rp_cty_same g w : opens_on_claims w -> request_param g w = request_param g (open_wrapper w).
 Proof.
-  destruct w as [| |h i]; auto. intros [Hs [Hc Hi]]. cbn [request_param open_wrapper]. rewrite Hs, Hc.
-  destruct i as [a c s|c|]; [reflexivity|reflexivity|congruence].
+  destruct w as [| |h i]; auto. intros [Hs Hi]. cbn [request_param open_wrapper]. rewrite Hs.
+  destruct i as [a c s|c|]; [rewrite Hi; reflexivity| |contradiction].
+  now destruct (j_cty_jwt h).
+Qed.
+
+(* RequestParam never takes an identity from claims nobody signed, whatever the header of the wrapper says *)
+Lemma request_param_unsigned g h c : request_param g (WEnc h (IJson c)) = RpContinue.
+Proof. cbn [request_param]. destruct (j_state h); auto. now destruct (j_cty_jwt h). Qed.
+
+(* ... an identity it answers is the iss of claims whose signature verified under a key the key jar holds for that
+   issuer (the content of the wrapper, when there is one) *)
+Lemma request_param_plain_ident g w i :
+  request_param_plain g w = RpIdent i ->
+  exists alg claims sg k cands n,
+    w = WObj alg claims sg /\ alg_kind alg = AlgK k /\
+    lookup_keys g (iss_for claims None) k (kid_of sg) = Some cands /\
+    try_verify cands alg claims sg = VOk n /\ assoc k_iss claims = Some (PS_ i).
+Proof.
+  destruct w as [|alg claims sg|h j]; cbn [request_param_plain]; try discriminate.
+  destruct (alg_kind alg) as [|k|] eqn:Ea; try discriminate.
+  destruct (lookup_keys g (iss_for claims None) k (kid_of sg)) as [cands|] eqn:El; try discriminate.
+  destruct (try_verify cands alg claims sg) as [n| |] eqn:Et; try discriminate.
+  destruct (assoc k_iss claims) as [[x|l]|] eqn:Ei; try discriminate.
+  intro H. injection H as ->. exists alg, claims, sg, k, cands, n. auto.
+Qed.
+
+Theorem request_param_ident_signed g w i :
+  request_param g w = RpIdent i ->
+  exists alg claims sg k cands n,
+    open_wrapper w = WObj alg claims sg /\ alg_kind alg = AlgK k /\
+    lookup_keys g (iss_for claims None) k (kid_of sg) = Some cands /\
+    try_verify cands alg claims sg = VOk n /\ assoc k_iss claims = Some (PS_ i).
+Proof.
+  destruct w as [|alg claims sg|h j].
+  - discriminate.
+  - cbn [request_param open_wrapper]. intro H. apply request_param_plain_ident in H. exact H.
+  - cbn [request_param open_wrapper]. destruct (j_state h); try discriminate.
+    destruct (j_cty_jwt h); try discriminate. destruct j as [a c s|c|]; try discriminate.
+    intro H. apply request_param_plain_ident in H. exact H.
 Qed.
 
 Theorem authz_open g d st outer w :
@@ -1171,6 +1209,17 @@ Proof.
   - now rewrite (verify_authz_open g _ w).
   - destruct (methods_configured g); auto. now rewrite (verify_authz_open g _ w).
   - now rewrite (verify_authz_open g _ w).
+Qed.
+
+(* claims nobody signed inside a wrapper that opens: the authorization endpoint answers exactly as it answers the
+   unsigned object with those claims, whatever the client-authentication methods and the cty header *)
+Corollary authz_open_json g d st outer h c :
+  j_state h = JOpens ->
+  authz_parse g d st outer (Some (WEnc h (IJson c))) = authz_parse g d st outer (Some (WObj s_none c None)).
+Proof.
+  intro Hs. rewrite (authz_open g d st outer (WEnc h (IJson c))).
+  - cbn [open_wrapper]. now rewrite Hs.
+  - right. cbn [opens_on_claims]. auto.
 Qed.
 
 (* a wrapped document fetched from a request_uri never takes effect: an accepted outcome of _do_request_uri for
